@@ -3,8 +3,9 @@
     binary64; [_b64]: about IEEE values proper; no suffix: for ANY number type and operations
     (hence bit-for-bit for binary64). *)
 From Coq Require Import ZArith QArith Qabs Qreduction List.
-From KV Require Import Base.IEEE Base.Outcome Base.Num C19.Model C17.Model
-  C17.ProofsLfo C17.ProofsTween C17.ProofsOrder C17.ProofsMap C17.ProofsExamples.
+From KV Require Import Base.IEEE Base.Outcome Base.Num C19.Model C17.Model C17.ModelX
+  C17.ProofsLfo C17.ProofsTween C17.ProofsOrder C17.ProofsMap C17.ProofsExamples
+  C17.ProofsSet C17.ProofsChunk C17.ProofsXExamples.
 Import ListNotations.
 Local Open Scope Q_scope.
 
@@ -197,3 +198,303 @@ Theorem removed_at_next_callback :
   forall (T : Type) (NT : Num T) (st : rstate T) (id : Z),
     In id (r_removed st) -> ~ In id (map fst (r_new st)) -> gone id (start_processing st).
 Proof. exact (fun T NT => @removed_at_next_callback_proof T NT). Qed.
+
+(** ** the tweener's command histories (complete [Tweener] with delayed and clock-timed starts) *)
+
+(** In EVERY history of [set] commands and updates, what the tweener does from the moment a [set] is
+    read does not depend on what came before (idle, a pending transition, a running one) but for the
+    value it had at that moment: the earlier transition is gone. *)
+Theorem tweener_set_supersedes :
+  forall (T : Type) (NT : Num T) (powf : T -> T -> T) (secs_to_ns : T -> Z) (ns_to_secs : Z -> T)
+         (before after : list (xev T)) (v : T) (tw : xtween T) (t0 : xtweener T),
+    xrun powf secs_to_ns ns_to_secs (@xtweener_set T NT) (before ++ XSet v tw :: after) t0 =
+    xrun powf secs_to_ns ns_to_secs (@xtweener_set T NT) (XSet v tw :: after)
+         (xtweener_new (x_value (xrun powf secs_to_ns ns_to_secs (@xtweener_set T NT) before t0))).
+Proof. exact (fun T NT => @set_supersedes_proof T NT). Qed.
+
+(** ... and so for the values a probe reads once per chunk. *)
+Theorem tweener_set_supersedes_trace :
+  forall (T : Type) (NT : Num T) (powf : T -> T -> T) (secs_to_ns : T -> Z) (ns_to_secs : Z -> T)
+         (before after : list (xev T)) (v : T) (tw : xtween T) (t0 : xtweener T),
+    xtrace powf secs_to_ns ns_to_secs (@xtweener_set T NT) (before ++ XSet v tw :: after) t0 =
+    xtrace powf secs_to_ns ns_to_secs (@xtweener_set T NT) before t0 ++
+    xtrace powf secs_to_ns ns_to_secs (@xtweener_set T NT) (XSet v tw :: after)
+           (xtweener_new (x_value (xrun powf secs_to_ns ns_to_secs (@xtweener_set T NT) before t0))).
+Proof. exact (fun T NT => @set_supersedes_trace_proof T NT). Qed.
+
+(** From the moment [set(v, tw)] is read by a tweener in ANY state [t0] (so also when [v] is the
+    value it has, and also when an earlier transition is pending or running): while the start time
+    has not come ([ws]: a delay counting down, a clock that has not reached the time, is stopped or
+    is gone) the value stays what it was and the transition is the new one; then, for every
+    partition [us] of the time since the start, the value is
+    value(t0) + (v - value(t0)) * ease(elapsed / duration) before the end, identically [v] from the
+    end on, and [v] for ever (until the next command). *)
+Theorem tweener_command_law :
+  forall (powf : Q -> Q -> Q) (secs_to_ns : Q -> Z) (ns_to_secs : Z -> Q) (t0 : xtweener Q) (v : Q)
+         (st st' : xstart Q) (dur : Z) (e : easing Q) (ws us : list (Q * cinfo Q)),
+    pending secs_to_ns st ws = Some st' -> started_all secs_to_ns st' us -> all_nonneg (map fst us) ->
+    let tw := {| xt_start := st; xt_dur := dur; xt_easing := e |} in
+    let tw' := {| xt_start := st'; xt_dur := dur; xt_easing := e |} in
+    let d := ns_to_secs dur in
+    let t1 := xrun powf secs_to_ns ns_to_secs (@xtweener_set Q _) (XSet v tw :: xupds ws) t0 in
+    x_value t1 = x_value t0 /\ x_state t1 = XTweening (x_value t0) v n0 tw' /\
+    (us <> [] ->
+     let el := Qred (Qsum (map fst us)) in
+     let t2 := xrun powf secs_to_ns ns_to_secs (@xtweener_set Q _) (xupds us) t1 in
+     (el < d -> x_value t2 = lerp (x_value t0) v (ease powf e (ndiv el d))) /\
+     (d <= el ->
+        x_value t2 = v /\ x_state t2 = XIdle /\
+        (forall more : list (Q * cinfo Q),
+           x_value (xrun powf secs_to_ns ns_to_secs (@xtweener_set Q _) (xupds more) t2) = v))).
+Proof. exact xtweener_command_law_proof. Qed.
+
+(** The finishing update, for any number type (bit-for-bit in binary64): the value becomes the
+    target itself, the tweener idle. *)
+Theorem tweener_finish_exact :
+  forall (T : Type) (NT : Num T) (powf : T -> T -> T) (secs_to_ns : T -> Z) (ns_to_secs : Z -> T)
+         (v0 v1 time : T) (tw : xtween T) (value dt : T) (ci : cinfo T),
+    fst (xstart_step secs_to_ns dt ci (xt_start tw)) = true ->
+    nleb (ns_to_secs (xt_dur tw)) (nadd time dt) = true ->
+    xtweener_update powf secs_to_ns ns_to_secs dt ci
+      {| x_state := XTweening v0 v1 time tw; x_value := value |} =
+    {| x_state := XIdle; x_value := v1 |}.
+Proof. exact (fun T NT => @xfinish_exact_proof T NT). Qed.
+
+(** An update that finds the transition not started moves nothing but the start time. *)
+Theorem tweener_pending_holds :
+  forall (T : Type) (NT : Num T) (powf : T -> T -> T) (secs_to_ns : T -> Z) (ns_to_secs : Z -> T)
+         (v0 v1 time : T) (tw : xtween T) (value dt : T) (ci : cinfo T),
+    fst (xstart_step secs_to_ns dt ci (xt_start tw)) = false ->
+    xtweener_update powf secs_to_ns ns_to_secs dt ci
+      {| x_state := XTweening v0 v1 time tw; x_value := value |} =
+    {| x_state := XTweening v0 v1 time (xset_start tw (snd (xstart_step secs_to_ns dt ci (xt_start tw))));
+       x_value := value |}.
+Proof. exact (fun T NT => @xpending_step T NT). Qed.
+
+(** An idle tweener never moves. *)
+Theorem tweener_idle_holds_any :
+  forall (T : Type) (NT : Num T) (powf : T -> T -> T) (secs_to_ns : T -> Z) (ns_to_secs : Z -> T)
+         (evs : list (xev T)) (v : T),
+    only_updates evs ->
+    xrun powf secs_to_ns ns_to_secs (@xtweener_set T NT) evs {| x_state := XIdle; x_value := v |} =
+    {| x_state := XIdle; x_value := v |}.
+Proof. exact (fun T NT => @xidle_holds_proof T NT). Qed.
+
+(** Counter-model refuted: if [set] returned early when the target equals the present value, there
+    is a history (a transition scheduled one second ahead, then "stay at 0.0, now") after which the
+    tweener does not hold the target of its last command. *)
+Theorem set_to_current_value_dropped_refuted :
+  exists (before : list (xev Q)) (v : Q) (tw : xtween Q) (after : list (xev Q)),
+    only_updates after /\
+    let h := before ++ XSet v tw :: after in
+    let t_real := xrun idp s2n n2s (@xtweener_set Q _) h (xtweener_new 0) in
+    let t_early := xrun idp s2n n2s (@xtweener_set_early Q _) h (xtweener_new 0) in
+    x_value (xrun idp s2n n2s (@xtweener_set Q _) before (xtweener_new 0)) = v /\
+    x_state (xrun idp s2n n2s (@xtweener_set Q _) before (xtweener_new 0)) <> XIdle /\
+    x_value t_real = v /\ x_state t_real = XIdle /\ ~ x_value t_early == v.
+Proof. exact set_to_current_value_dropped_refuted_proof. Qed.
+
+(** binary64: a command to the present value of a running transition, then its finishing update:
+    bit-for-bit the target. *)
+Theorem tweener_set_to_current_b64 :
+  bits_of_f64 (x_value b64_t0) <> bits_of_f64 b64_01 /\ bits_of_f64 (x_value b64_t0) <> bits_of_f64 b64_07 /\
+  let t := xrun (fun x _ => x) s2n64 n2s64 (@xtweener_set f64 _)
+             [XSet (x_value b64_t0) {| xt_start := XImmediate; xt_dur := 1; xt_easing := Linear |};
+              XUpd (n2s64 1) (@no_clocks f64); XUpd (n2s64 1) (@no_clocks f64)] b64_t0 in
+  bits_of_f64 (x_value t) = bits_of_f64 (x_value b64_t0) /\
+  match x_state t with XIdle => True | _ => False end.
+Proof. exact set_to_current_b64. Qed.
+
+(** ** listeners are readers of modulators and of clocks; spatial tracks read the listeners *)
+
+(** [Renderer::process_chunk] with listeners restricted to what Model.v knows IS Model.v's. *)
+Theorem xchunk_refines_process_chunk :
+  forall (T : Type) (NT : Num T) (tau : T) (sin : T -> T) (powf : T -> T -> T) (secs_to_ns : T -> Z)
+         (ns_to_secs : Z -> T) (V : Type) (interp : V -> V -> T -> V) (D : Type) (dist : V -> V -> D)
+         (st : cstate T V D) (len : Z),
+    k_base (xchunk tau sin powf secs_to_ns ns_to_secs V interp D dist st len) =
+    process_chunk tau sin powf secs_to_ns ns_to_secs (k_base st) len.
+Proof. exact (fun T NT => @xchunk_base_proof T NT). Qed.
+
+(** In every chunk every listener parameter, whatever its state, is updated with the modulator
+    values and the clock times produced by THIS chunk's modulator and clock updates. *)
+Theorem listeners_updated_after :
+  forall (T : Type) (NT : Num T) (tau : T) (sin : T -> T) (powf : T -> T -> T) (secs_to_ns : T -> Z)
+         (ns_to_secs : Z -> T) (V : Type) (interp : V -> V -> T -> V) (D : Type) (dist : V -> V -> D)
+         (st : cstate T V D) (len lid : Z) (p : vparam T V),
+    In (lid, p) (k_lis st) ->
+    let st' := xchunk tau sin powf secs_to_ns ns_to_secs V interp D dist st len in
+    In (lid, vparam_update powf secs_to_ns ns_to_secs V interp (nmul (r_dt (k_base st)) (nofZ len))
+               (lookup_val (vals_of (r_mods (k_base st'))))
+               (cinfo_of (r_clocks (k_base st'))) p) (k_lis st').
+Proof. exact (fun T NT => @listeners_updated_after_proof T NT). Qed.
+
+(** A listener position linked to modulator [id]: after the chunk it is the mapping of the value
+    the modulator has after this chunk's update (it holds if the id does not resolve). *)
+Theorem listener_linked_same_chunk :
+  forall (T : Type) (NT : Num T) (tau : T) (sin : T -> T) (powf : T -> T -> T) (secs_to_ns : T -> Z)
+         (ns_to_secs : Z -> T) (V : Type) (interp : V -> V -> T -> V) (D : Type) (dist : V -> V -> D)
+         (st : cstate T V D) (len lid id : Z) (m : vmapping T V) (raw prev : V),
+    In (lid, vlinked V id m raw prev) (k_lis st) ->
+    let st' := xchunk tau sin powf secs_to_ns ns_to_secs V interp D dist st len in
+    In (lid, vlinked V id m
+               match lookup_val (vals_of (r_mods (k_base st'))) id with
+               | Some x => vmap powf V interp m x
+               | None => raw
+               end raw) (k_lis st').
+Proof. exact (fun T NT => @listener_linked_same_chunk_proof T NT). Qed.
+
+(** A listener transition that waits for time (tk, fr) of clock [c]: it starts in the chunk in
+    which the clock -- as updated in this chunk -- has reached the time, not one chunk later. *)
+Theorem listener_clock_same_chunk :
+  forall (T : Type) (NT : Num T) (tau : T) (sin : T -> T) (powf : T -> T -> T) (secs_to_ns : T -> Z)
+         (ns_to_secs : Z -> T) (V : Type) (interp : V -> V -> T -> V) (D : Type) (dist : V -> V -> D)
+         (st : cstate T V D) (len lid : Z) (start target : V) (time : T) (c tk : Z) (fr : T) (dur : Z)
+         (e : easing T) (raw prev : V),
+    In (lid, vwaiting V start target time c tk fr dur e raw prev) (k_lis st) ->
+    let st' := xchunk tau sin powf secs_to_ns ns_to_secs V interp D dist st len in
+    let dtc := nmul (r_dt (k_base st)) (nofZ len) in
+    let tw := {| xt_start := XClock c tk fr; xt_dur := dur; xt_easing := e |} in
+    In (lid,
+        if when_now (cinfo_of (r_clocks (k_base st'))) c tk fr then
+          if nleb (ns_to_secs dur) (nadd time dtc)
+          then {| vp_state := VIdle (VVFixed target); vp_raw := target; vp_prev := raw; vp_stagnant := true |}
+          else {| vp_state := VTween start (VVFixed target) (nadd time dtc) tw;
+                  vp_raw := if (dur =? 0)%Z then raw
+                            else interp start target (xtween_value powf ns_to_secs tw (nadd time dtc));
+                  vp_prev := raw; vp_stagnant := false |}
+        else vwaiting V start target time c tk fr dur e
+               (if (dur =? 0)%Z then raw else interp start target (xtween_value powf ns_to_secs tw time)) raw)
+       (k_lis st').
+Proof. exact (fun T NT => @listener_clock_same_chunk_proof T NT). Qed.
+
+(** Same-chunk corollary: a spatial track whose listener's position is linked to modulator [id]
+    reads, in the mixer of chunk k, the position and the listener distance that belong to the
+    modulator's value of chunk k. *)
+Theorem spatial_distance_same_chunk :
+  forall (T : Type) (NT : Num T) (tau : T) (sin : T -> T) (powf : T -> T -> T) (secs_to_ns : T -> Z)
+         (ns_to_secs : Z -> T) (V : Type) (interp : V -> V -> T -> V) (D : Type) (dist : V -> V -> D)
+         (st : cstate T V D) (len sid : Z) (s : spat V) (lid id : Z) (m : vmapping T V) (raw prev : V),
+    NoDup (map fst (k_lis st)) ->
+    In (sid, s) (k_spat st) -> sp_listener s = lid ->
+    In (lid, vlinked V id m raw prev) (k_lis st) ->
+    let st' := xchunk tau sin powf secs_to_ns ns_to_secs V interp D dist st len in
+    exists ev : spat_event T V D,
+      In ev (k_slog st') /\ se_sid ev = sid /\ se_len ev = len /\
+      se_mod ev = lookup_val (vals_of (r_mods (k_base st'))) (sp_watch s) /\
+      let pos := match lookup_val (vals_of (r_mods (k_base st'))) id with
+                 | Some x => vmap powf V interp m x
+                 | None => raw
+                 end in
+      se_pos ev = Some (pos, raw) /\ se_dist ev = Some (dist pos (sp_emitter s)).
+Proof. exact (fun T NT => @spatial_distance_same_chunk_proof T NT). Qed.
+
+(** For any list of chunk lengths, per chunk: every modulator, then every clock, then every
+    listener, then every mixer-side reader -- each exactly once, in this order. *)
+Theorem listeners_once_per_chunk :
+  forall (T : Type) (NT : Num T) (tau : T) (sin : T -> T) (powf : T -> T -> T) (secs_to_ns : T -> Z)
+         (ns_to_secs : Z -> T) (V : Type) (interp : V -> V -> T -> V) (D : Type) (dist : V -> V -> D)
+         (lens : list Z) (st : cstate T V D),
+    k_calls (fold_left (xchunk tau sin powf secs_to_ns ns_to_secs V interp D dist) lens st) =
+    k_calls st ++
+    flat_map (fun _ : Z => xexpected (map fst (r_mods (k_base st))) (map fst (r_clocks (k_base st)))
+                                     (map fst (k_lis st)) (map fst (r_probes (k_base st)))
+                                     (map fst (k_spat st))) lens.
+Proof. exact (fun T NT => @listeners_once_per_chunk_proof T NT). Qed.
+
+(** Counter-model refuted: with the listeners updated FIRST in the chunk, a listener linked to a
+    moving modulator is one chunk behind, and the spatial track reads the wrong distance. *)
+Theorem listeners_first_refuted :
+  exists (st : cstate Q Q Q) (len lid sid id : Z) (m : vmapping Q Q) (s : spat Q) (raw prev : Q),
+    NoDup (map fst (k_lis st)) /\ In (sid, s) (k_spat st) /\ sp_listener s = lid /\
+    In (lid, vlinked Q id m raw prev) (k_lis st) /\
+    let st' := chunk_ord 6 half1 idp s2n n2s Q qinterp Q qdist listeners_first_order st len in
+    exists (x : Q) (p : vparam Q Q) (ev : spat_event Q Q Q),
+      lookup_val (vals_of (r_mods (k_base st'))) id = Some x /\
+      In (lid, p) (k_lis st') /\ ~ vp_raw p == vmap idp Q qinterp m x /\
+      In ev (k_slog st') /\ se_sid ev = sid /\
+      se_dist ev <> Some (qdist (vmap idp Q qinterp m x) (sp_emitter s)).
+Proof. exact listeners_first_refuted_proof. Qed.
+
+(** ... and a listener transition that waits for a clock time does not start in the chunk in
+    which the clock reaches it. *)
+Theorem listeners_first_clock_refuted :
+  exists (st : cstate Q Q Q) (len lid c tk : Z) (fr : Q) (start target time : Q) (dur : Z)
+         (e : easing Q) (raw prev : Q),
+    In (lid, vwaiting Q start target time c tk fr dur e raw prev) (k_lis st) /\
+    let st' := chunk_ord 6 half1 idp s2n n2s Q qinterp Q qdist listeners_first_order st len in
+    when_now (cinfo_of (r_clocks (k_base st'))) c tk fr = true /\
+    In (lid, vwaiting Q start target time c tk fr dur e raw raw) (k_lis st').
+Proof. exact listeners_first_clock_refuted_proof. Qed.
+
+(** ** a link that does not resolve YET *)
+
+(** A parameter of any type resting on modulator [id], through ANY sequence of updates (the id may
+    resolve or not at each of them): at every update at which the id resolves, the parameter is the
+    mapping of the value resolved at that update; it stays linked and is never marked stagnant. *)
+Theorem linked_follows_once_resolvable :
+  forall (T : Type) (NT : Num T) (powf : T -> T -> T) (secs_to_ns : T -> Z) (ns_to_secs : Z -> T)
+         (V : Type) (interp : V -> V -> T -> V) (us : list (vupd T)) (id : Z) (m : vmapping T V)
+         (raw prev : V) (dt : T) (look : Z -> option T) (ci : cinfo T) (x : T),
+    look id = Some x ->
+    let p := vparam_run V (vparam_update powf secs_to_ns ns_to_secs V interp) (us ++ [(dt, look, ci)])
+                        (vlinked V id m raw prev) in
+    vp_raw p = vmap powf V interp m x /\ vp_state p = VIdle (VVFromMod id m) /\ vp_stagnant p = false.
+Proof. exact (fun T NT => @linked_follows_once_resolvable_proof T NT). Qed.
+
+(** While the id does not resolve the parameter keeps its value and stays live. *)
+Theorem linked_holds_while_unresolvable :
+  forall (T : Type) (NT : Num T) (powf : T -> T -> T) (secs_to_ns : T -> Z) (ns_to_secs : Z -> T)
+         (V : Type) (interp : V -> V -> T -> V) (us : list (vupd T)) (id : Z) (m : vmapping T V)
+         (raw prev : V),
+    Forall (fun u : vupd T => snd (fst u) id = None) us ->
+    let p := vparam_run V (vparam_update powf secs_to_ns ns_to_secs V interp) us (vlinked V id m raw prev) in
+    vp_raw p = raw /\ vp_state p = VIdle (VVFromMod id m) /\ vp_stagnant p = false.
+Proof. exact (fun T NT => @linked_holds_while_unresolvable_proof T NT). Qed.
+
+(** Counter-model refuted: marking an idle parameter stagnant when its modulator does not resolve
+    freezes it for good once the modulator appears. *)
+Theorem stagnant_on_unresolved_refuted :
+  exists (us : list (vupd Q)) (id : Z) (m : vmapping Q Q) (raw prev dt x : Q) (look : Z -> option Q),
+    look id = Some x /\
+    let p := vparam_run Q (vparam_update_stag idp s2n n2s Q qinterp) (us ++ [(dt, look, noc)])
+                        (vlinked Q id m raw prev) in
+    ~ vp_raw p == vmap idp Q qinterp m x /\ vp_stagnant p = true.
+Proof. exact stagnant_on_unresolved_refuted_proof. Qed.
+
+(** In Model.v's renderer, through EVERY history of operations: a probe parameter linked to [id]
+    stays linked, and in any later chunk it is the mapping of the value the modulator has after that
+    chunk's update (it holds while / once the id does not resolve). *)
+Theorem linked_probe_for_ever :
+  forall (T : Type) (NT : Num T) (tau : T) (sin : T -> T) (powf : T -> T -> T) (secs_to_ns : T -> Z)
+         (ns_to_secs : Z -> T) (ibs : Z) (ops : list (op T)) (st : rstate T) (pid w id : Z) (m : mapping T),
+    is_linked_probe pid w id m st ->
+    forall len : Z,
+      let st1 := fold_left (apply_op tau sin powf secs_to_ns ns_to_secs ibs) ops st in
+      let st2 := process_chunk tau sin powf secs_to_ns ns_to_secs st1 len in
+      exists raw1 : T,
+        In (pid, PrParam w (linked id m raw1)) (r_probes st1) /\
+        In (pid, PrParam w (linked id m
+              match lookup_val (vals_of (r_mods st2)) id with
+              | Some x => map_value powf m x
+              | None => raw1
+              end)) (r_probes st2).
+Proof. exact (fun T NT => @linked_probe_for_ever_proof T NT). Qed.
+
+(** The start of a callback.  The game thread's pushes interleave in any way with the audio
+    thread's drains; whenever the modulator queue is drained LAST ([real_drains]), after every
+    callback every live reader's modulator is in the arena or its handle was dropped: a link that
+    does not resolve means "removed", never "not yet". *)
+Theorem readers_never_ahead_of_modulators :
+  forall (pre : list qkind) (cbs : list (list (list gstep))) (st : wstate),
+    winv st -> cbs_ok (pre ++ [KMod]) cbs st ->
+    forall n : nat, (0 < n <= length cbs)%nat ->
+      resolvable (run_callbacks (pre ++ [KMod]) (firstn n cbs) st).
+Proof. exact readers_never_ahead_proof. Qed.
+
+(** Counter-model refuted: with the modulator queue drained FIRST a reader goes live one callback
+    before the modulator it was created after. *)
+Theorem mods_first_refuted :
+  exists cbs : list (list (list gstep)),
+    cbs_ok mods_first_drains cbs w_init /\ ~ resolvable (run_callbacks mods_first_drains cbs w_init).
+Proof. exact mods_first_refuted_proof. Qed.
